@@ -187,6 +187,11 @@ fn batch_consistency_case<P: G>(d: usize) -> Box<dyn Case> {
                     res.validated += 1;
                     let name: Vec<&str> = seq.iter().map(|k| kinds[*k]).collect();
                     *res.outcome_counter(&format!("batch-verdict:{}", vo.class())) += 1;
+                    if !vo.is_ok() {
+                        // an all-valid batch that plain verification rejects is C03's finding
+                        *res.outcome_counter("valid-batch-not-accepted(skipped)") += 1;
+                        continue;
+                    }
                     match (&rv.result, &ro.result, &vo.result) {
                         (Some(Ok(x)), Some(Ok(y)), Some(Ok(_))) => {
                             if x != y {
@@ -198,6 +203,56 @@ fn batch_consistency_case<P: G>(d: usize) -> Box<dyn Case> {
                     }
                 }
             }
+        }
+        res
+    })
+}
+
+/// A batch beyond the chunk limit whose first chunk carries no seed: both recovering modes must agree on every mask
+fn long_consistency_case<P: G>() -> Box<dyn Case> {
+    case(format!("{}/long-batch-consistency", P::NAME), move |_v| {
+        fg::clear_intern();
+        let mut res = CaseResult::new("explored");
+        let len = 258usize;
+        let cfg = Cfg::new(2, 1, 1, 1);
+        let mut sts = Vec::new();
+        let mut proofs = Vec::new();
+        let mut ctxs = Vec::new();
+        let mut expect: Vec<Option<Vec<Scalar>>> = Vec::new();
+        for pos in 0..len {
+            let mut wit = Wit::default_for(&cfg);
+            wit.values[0] = (pos % 4) as u64;
+            wit.blindings[0][0] = blinding(6000 + pos, 0);
+            if pos >= 256 {
+                wit.seed = Some(seed_scalar(pos as u64));
+            }
+            let built = build_cached::<P>(&cfg, &wit).unwrap();
+            let ctx = contexts()[pos % 6];
+            proofs.push(lib_prove(&built, &ctx, &mut HRng::chacha(pos as u64)).unwrap());
+            sts.push(built.statement.clone());
+            ctxs.push(ctx);
+            expect.push(wit.seed.map(|_| wit.blindings[0].clone()));
+        }
+        let run = |mode| {
+            let mut ts: Vec<merlin::Transcript> = ctxs.iter().map(|c| c.transcript()).collect();
+            verify_observed(&sts, &proofs, &mut ts, mode)
+        };
+        let rv = run(VerifyAction::RecoverAndVerify);
+        let ro = run(VerifyAction::RecoverOnly);
+        res.executions += 2;
+        res.validated += 1;
+        *res.outcome_counter(&format!("batch-verdict:{}", rv.class())) += 1;
+        match (&rv.result, &ro.result) {
+            (Some(Ok(a)), Some(Ok(b))) => {
+                if a != b {
+                    let bad: Vec<usize> = (0..len).filter(|i| a.get(*i) != b.get(*i)).take(6).collect();
+                    res.violate("masks", format!("RecoverOnly and RecoverAndVerify disagree on the masks of an accepted {}-member batch at positions {:?}", len, bad));
+                }
+                if *b != expect {
+                    res.violate("recover-only", "RecoverOnly does not return the members' masks");
+                }
+            },
+            _ => res.violate("verdict", format!("all-valid batch: RecoverAndVerify {}, RecoverOnly {}", rv.describe(), ro.describe())),
         }
         res
     })
@@ -220,6 +275,8 @@ pub fn run(rep: &mut Report) {
         cases.push(batch_consistency_case::<F>(d));
         cases.push(batch_consistency_case::<RistrettoPoint>(d));
     }
+    cases.push(long_consistency_case::<F>());
+    cases.push(long_consistency_case::<RistrettoPoint>());
     rep.explore("C10", cases);
     rep.expect_sub_outcome("verdict:Ok");
     rep.expect_sub_outcome("verdict:Err:VerificationFailed");
